@@ -274,6 +274,52 @@ let c16_sub id shard thr prefix steps =
                 | _ -> "-")
     | _ -> failwith ("bad sub step " ^ step) in
   Printf.printf "%s %s\n" id (String.concat ";" (List.map run (String.split_on_char ';' steps)))
+(* several subscribers (Db/SeqWait.v: tstep alloc_counter); grammar in harness/cmd/db/c16_multi.go
+     msub <id> <shard> <thr> <step>;...   T:<prefix> K:<n> X:<key> -> ok   Q:<prefix>:<deltas> -> <key> | <STATUS> | err
+                                          R:<n> -> <key> | - | closed      D -> n=<key>,..|n=-|... *)
+let rec c16_int_of_nat = function M.O -> 0 | M.S n -> 1 + c16_int_of_nat n
+let c16_msub id shard thr steps =
+  let cfg = { M.cfg_shard = mz_of_string shard; M.cfg_threshold = nat_of_int (int_of_string thr) } in
+  let st = ref M.init_state and tr = ref M.init_tracker and off = ref (-1) in
+  let tact a = tr := M.tstep M.alloc_counter !tr a in
+  let dash = n_of_int 45 in
+  let highest p =
+    let lo = p @ (dash :: M.pad20 M.N0) and hi = p @ (dash :: M.pad20 (n_of_string "18446744073709551615")) in
+    List.fold_left (fun acc (k, _) -> if M.cmp_slash k lo <> M.Lt && M.cmp_slash k hi = M.Lt then Some k else acc) None (!st).M.st_kv in
+  let sub_of n = List.find_opt (fun s -> c16_int_of_nat s.M.sb_h = n) (!tr).M.t_subs in
+  let recv1 n = match sub_of n with
+    | Some s when s.M.sb_open -> (match s.M.sb_cell with Some v -> tact (M.TReceive (nat_of_int n)); Some v | None -> None)
+    | _ -> None in
+  let write req =
+    incr off;
+    let ((st', r), _) = M.process_write_full M.wrapper_callbacks cfg !st req (mz_of_string (string_of_int !off)) (n_of_string (string_of_int (1000 + !off))) in
+    st := st'; r in
+  let run step = match String.split_on_char ':' step with
+    | ["T"; p] -> let p = bytes_of_hex p in tact (M.TAdd (p, highest p)); "ok"
+    | ["K"; n] -> tact (M.TClose (nat_of_int (int_of_string n))); "ok"
+    | ["Q"; p; ds] ->
+      let p = bytes_of_hex p in
+      let put = { M.p_key = p; M.p_value = bytes_of_hex "76"; M.p_expected = None; M.p_session = None; M.p_identity = None;
+                  M.p_partition = Some (bytes_of_hex "706b"); M.p_deltas = List.map n_of_string (String.split_on_char '+' ds); M.p_indexes = [] } in
+      (match write { M.w_puts = [put]; M.w_dels = []; M.w_ranges = [] } with
+       | M.Err _ -> "err"
+       | M.Ok resp -> (match resp.M.wr_puts with
+           | [r] -> (match r.M.pr_key with Some k -> tact (M.TUpdate (p, k)); hex_of_bytes k | None -> status_s r.M.pr_status)
+           | _ -> "?"))
+    | ["X"; k] -> ignore (write { M.w_puts = []; M.w_dels = [{ M.d_key = bytes_of_hex k; M.d_expected = None }]; M.w_ranges = [] }); "ok"
+    | ["R"; n] ->
+      let n = int_of_string n in
+      (match sub_of n with
+       | Some s when s.M.sb_open -> (match recv1 n with Some v -> hex_of_bytes v | None -> "-")
+       | _ -> "closed")
+    | ["D"] ->
+      let opens = List.filter (fun s -> s.M.sb_open) (!tr).M.t_subs in
+      join "|" (List.map (fun s ->
+        let n = c16_int_of_nat s.M.sb_h in
+        let rec go acc = match recv1 n with Some v -> go (hex_of_bytes v :: acc) | None -> List.rev acc in
+        string_of_int n ^ "=" ^ join "," (go [])) opens)
+    | _ -> failwith ("bad msub step " ^ step) in
+  Printf.printf "%s %s\n" id (String.concat ";" (List.map run (String.split_on_char ';' steps)))
 (* ---- C16 end ---- *)
 (* ---- C17 begin ---- notification stream (Db/NotifStream.v); grammar in harness/cmd/db/c17_notif.go and harness/cmd/notif/main.go
      nseq <id> <shard> <thr> <op>;...    the ops of "seq" plus
@@ -369,6 +415,7 @@ let () = read_lines (fun line ->
   | ["val"; id; op] -> c13_val id op
   | ["lseq"; id; shard; thr; ops] -> c13_lseq id shard thr ops
   | ["sub"; id; shard; thr; prefix; steps] -> c16_sub id shard thr prefix steps
+  | ["msub"; id; shard; thr; steps] -> c16_msub id shard thr steps
   | ["nseq"; id; shard; thr; ops] -> c17_nseq id shard thr ops
   | [] | [""] -> ()
   | _ -> Printf.printf "?? bad line: %.200s\n" line)
